@@ -1559,8 +1559,9 @@ namespace link_layer {
                 defered_conn_event_counter_ = read_16bit( &body[ 10 ] );
                 commit = false;
 
-                if ( static_cast< std::uint16_t >( defered_conn_event_counter_ - this->connection_event_counter() + 1 ) & 0x8000
-                    || defered_conn_event_counter_ == this->connection_event_counter() + 1 )
+                // the next connection event is connection_event_counter() + 1
+                if ( static_cast< std::uint16_t >( defered_conn_event_counter_ - this->connection_event_counter() - 1 ) & 0x8000
+                    || defered_conn_event_counter_ == static_cast< std::uint16_t >( this->connection_event_counter() + 1 ) )
                 {
                     disconnecting_reason_ = connection_instant_passed;
                     result = ll_result::disconnect;
@@ -1599,7 +1600,8 @@ namespace link_layer {
                 defered_conn_event_counter_ = read_16bit( &body[ 6 ] );
                 commit = false;
 
-                if ( static_cast< std::uint16_t >( defered_conn_event_counter_ - this->connection_event_counter() ) & 0x8000 )
+                // the next connection event is connection_event_counter() + 1
+                if ( static_cast< std::uint16_t >( defered_conn_event_counter_ - this->connection_event_counter() - 1 ) & 0x8000 )
                 {
                     disconnecting_reason_ = connection_instant_passed;
                     result = ll_result::disconnect;
